@@ -9,12 +9,14 @@ Definition bquiet (t : str) (b : bop) : Prop :=        (* nothing registers t *)
   match b with
   | BStart _ r => w_tunnel r <> t
   | BEnd _ _ => True
+  | BRefused _ _ => True
   | BOther o => ~ writes_tunnel t o
   end.
 Definition bwaiting (n : nat) (t : str) (b : bop) : Prop :=   (* the tunnel keeps waiting on node n *)
   match b with
   | BStart n' r => w_tunnel r = t -> n' = n            (* only duplicate starts on the same node *)
   | BEnd _ t' => t' <> t
+  | BRefused _ _ => True                               (* refused opens of ANY id on ANY node, t included *)
   | BOther o => ~ sets_tunnel t o
   end.
 
@@ -36,11 +38,12 @@ Proof.
   inversion Hf as [|b' h' Hb Hh]; subst b' h'. cbn [bcompile].
   destruct (bcalls ix b) as [os ix1] eqn:Ec. specialize (IH ix1 Hh). destruct (bcompile ix1 h) as [os' ix2]. cbn [fst] in *.
   apply Forall_app. split; [|exact IH].
-  destruct b as [n r|n t'|o]; cbn [bcalls bquiet] in *.
+  destruct b as [n r|n t'|n t'|o]; cbn [bcalls bquiet] in *.
   - destruct (ix n (w_tunnel r)); injection Ec as E1 _; subst os; [constructor|].
     constructor; [cbn [writes_tunnel]; exact Hb|constructor].
   - destruct (ix n t'); injection Ec as E1 _; subst os; [|constructor].
     constructor; [cbn [writes_tunnel]; tauto|constructor].
+  - injection Ec as E1 _. subst os. constructor.
   - injection Ec as E1 _. subst os. constructor; [exact Hb|constructor].
 Qed.
 
@@ -51,7 +54,7 @@ Proof.
   inversion Hf as [|b' h' Hb Hh]; subst b' h'. cbn [bcompile].
   destruct (bcalls ix b) as [os ix1] eqn:Ec.
   assert (Hix1 : ix1 n t = true /\ Forall (fun o => ~ sets_tunnel t o) os).
-  { destruct b as [n' r|n' t'|o]; cbn [bcalls bwaiting] in *.
+  { destruct b as [n' r|n' t'|n' t'|o]; cbn [bcalls bwaiting] in *.
     - destruct (ix n' (w_tunnel r)) eqn:Ei; injection Ec as E1 E2; subst os ix1; [split; [exact Hix|constructor]|].
       assert (Hne : w_tunnel r <> t).
       { intro K. specialize (Hb K). subst n' . rewrite K in Ei. rewrite Hix in Ei. discriminate. }
@@ -60,6 +63,7 @@ Proof.
     - destruct (ix n' t') eqn:Ei; injection Ec as E1 E2; subst os ix1; [|split; [exact Hix|constructor]].
       split; [rewrite bi_set_other_t; [exact Hix|intro K; apply Hb; symmetry; exact K]|].
       constructor; [cbn [sets_tunnel]; exact Hb|constructor].
+    - injection Ec as E1 E2. subst os ix1. split; [exact Hix|constructor].
     - injection Ec as E1 E2. subst os ix1. split; [exact Hix|]. constructor; [exact Hb|constructor]. }
   destruct Hix1 as [Hix1 Hos]. specialize (IH ix1 Hix1 Hh). destruct (bcompile ix1 h) as [os' ix2]. cbn [fst] in *.
   apply Forall_app. split; assumption.
@@ -157,3 +161,21 @@ Lemma skip_local_target_refuted :
   /\ ex_lookup c (ex_final c (init ex_gstr) (fst (bcalls_skip_local ctl ex_ix0 (BStart 0 ex_rec)))) 1 (w_tunnel ex_rec)
     = RNotFound.
 Proof. vm_compute. repeat split; reflexivity. Qed.
+
+(* refused opens for the id of a WAITING tunnel - a duplicate on the same node, a failed open on another node - leave it
+   routable (bcalls makes no table call for them); the "clean up on refusal" variant wipes the waiting tunnel's record *)
+Definition ex_refused_history : list bop := [BStart 0 ex_rec_dup; BRefused 1 (w_tunnel ex_rec); BRefused 0 (w_tunnel ex_rec)].
+
+Lemma cleanup_on_refusal_refuted :
+  let c := cfg_hybrid true 30000000000 in
+  let '(os1, ix1) := bcalls ex_ix0 (BStart 0 ex_rec) in
+  let s1 := ex_final c (init ex_gstr) os1 in
+  Forall (bwaiting 0 (w_tunnel ex_rec)) ex_refused_history
+  /\ ex_lookup c (ex_final c s1 (fst (bcompile ix1 ex_refused_history))) 1 (w_tunnel ex_rec) = ROk (stamp ex_rec 0 30000000000)
+  /\ ex_lookup c (ex_final c s1 (fst (bcalls_cleanup_on_refusal ix1 (BStart 0 ex_rec_dup)))) 1 (w_tunnel ex_rec) = RNotFound
+  /\ ex_lookup c (ex_final c s1 (fst (bcalls_cleanup_on_refusal ix1 (BRefused 1 (w_tunnel ex_rec))))) 0 (w_tunnel ex_rec) = RNotFound.
+Proof.
+  cbv zeta. split.
+  - unfold ex_refused_history. repeat (apply Forall_cons; [cbn [bwaiting]; try exact I; intros _; reflexivity|]). apply Forall_nil.
+  - vm_compute. repeat split; reflexivity.
+Qed.
